@@ -76,7 +76,11 @@ LEVEL_NOTE = ("Trusted: Lean kernel + propext/Quot.sound/Classical.choice; the h
               "flattenRec of the MODEL's format; that the real parse() reads the same three listings is the "
               "correspondence of C01/C02 (their flatten) plus the c06.flatten comparison here, restricted to command "
               "names/aliases, argument name/required/multi and option long/short names; option value modes, types, "
-              "nullability and defaults are outside the builder model (universally quantified parameters aa/oa).")
+              "nullability and defaults are outside the builder model (universally quantified parameters aa/oa).  "
+              "That a finished format is a snapshot (later builder calls do not change it) is definitional in the model - "
+              "Builder.format is a value computed from the builder state - and therefore CHECKED on the real objects, not "
+              "proved: every format taken on the way is listed again after the later calls (defect D40, a shared command-name "
+              "list, was found this way and is repaired).")
 LEAN_MODULES = ["Clikit.Props.C06"]
 REQUIRED_THEOREMS = ["Clikit.Props.C06.step_atomic_inv", "Clikit.Props.C06.reachable_inv",
                      "Clikit.Props.C06.format_agrees", "Clikit.Props.C06.format_inv",
@@ -136,8 +140,11 @@ ASSUMPTIONS = [
     "has no other constructor and no mutator is read off the class, not proved)",
     "an instance of a subclass of a public element class is an element of that class (isinstance): the statement "
     "does not mention classes, the oracle demands the same of such objects as of plain ones",
-    "a format is only observed through its public queries; the list returned by get_command_names(False) is "
-    "shared between builder and format (aliasing is outside the functional model)",
+    "a format is only observed through its public queries. In the model a format is a VALUE computed from the builder "
+    "state (Builder.format): 'later builder operations do not change a format taken earlier' is definitional there and "
+    "not a theorem; for the real objects (where builder and format could share a list or dict - D40 did, for the command "
+    "names) it is CHECKED: every format taken on the way is listed again after the later calls and compared with what "
+    "it listed when it was taken",
 ]
 BUDGET_S = {"quick": 70, "thorough": 700}
 BATCH = 1500
@@ -1040,12 +1047,8 @@ def _oracle_statement(case, obs):
             return "ArgsFormat(elements, base) raised %s" % obs["bases"]["err"]
         return None
     for k, now in obs.get("changed_later", []):
-        then = obs["flat"]["steps"][k]
-        if (isinstance(now, dict) and isinstance(then, dict) and "err" not in now and "err" not in then
-                and now["args"] == then["args"] and now["opts"] == then["opts"]):
-            # pending finding, see report: get_command_names(False) hands out the builder's own list, so a format taken
-            # earlier acquires the command names added to the builder afterwards (only the command names)
-            continue
+        # (D40, repaired: before, get_command_names(False) handed out the builder's own list and a format taken earlier
+        # acquired the command names added to the builder afterwards - corpus/C06/d40-taken-format-command-names.json)
         return ("the format taken from the builder after operation %d lists %s after later operations on the builder; when "
                 "it was taken it listed %s (a finished format answers as the builder did when it was built)"
                 % (k, str(now)[:300], str(obs["flat"]["steps"][k])[:300]))
